@@ -596,6 +596,58 @@ def r9_metadata(r, facts):
     r.floor(9)
 
 
+STAT_H = '/usr/include/linux/stat.h'
+FILETYPE_BITS = {'is_dir': 'S_IFDIR', 'is_file': 'S_IFREG', 'is_symlink': 'S_IFLNK', 'is_socket': 'S_IFSOCK', 'is_block_device': 'S_IFBLK',
+                 'is_character_device': 'S_IFCHR', 'is_named_pipe': 'S_IFIFO'}
+PERMISSION_BITS = {'owner_can_read': 'S_IRUSR', 'owner_can_write': 'S_IWUSR', 'owner_can_execute': 'S_IXUSR', 'group_can_read': 'S_IRGRP',
+                   'group_can_write': 'S_IWGRP', 'group_can_execute': 'S_IXGRP', 'others_can_read': 'S_IROTH', 'others_can_write': 'S_IWOTH',
+                   'others_can_execute': 'S_IXOTH'}
+
+
+def _consts_in(e):
+    return [x[1] for x in subexprs(e) if x[0] == 'const' and x[1] is not None]
+
+
+def r9b_mode_bits(r, facts):
+    """FileType / Permissions accessors test the stat(2) mode bits of their name (values from <linux/stat.h>)"""
+    hv = {}
+    try:
+        for m in re.finditer(r'^#define\s+(S_I\w+)\s+(0[0-7]+)\s*$', open(STAT_H).read(), flags=re.M):
+            hv[m.group(1)] = int(m.group(2), 8)
+    except OSError:
+        pass
+    if not r.require(len(hv) >= 20, 'stat.h', 'could not read the S_I* constants from %s' % STAT_H):
+        return
+    n = 0
+    for name, bit in sorted(FILETYPE_BITS.items()):
+        f = facts.fn_opt('fs::FileType::%s' % name)
+        if not r.require(f is not None, 'filetype:%s' % name, 'FileType::%s not found' % name):
+            continue
+        eb = ExprBuilder(f, multi='phi')
+        es = [eb.rvalue(s_['rv']) for loc, s_ in f.assigns() if s_['lhs']['l'] == 0 and not s_['lhs']['p']]
+        ok = False
+        for e in es:
+            if e[0] == 'bin' and e[1] == 'Eq' and e[2][0] == 'bin' and e[2][1] == 'BitAnd':
+                ok = hv['S_IFMT'] in _consts_in(e[2]) and _consts_in(e[3]) == [hv[bit]]
+        n += 1
+        r.inst('FileType::%s == (mode & S_IFMT == %s)' % (name, bit), f.where())
+        r.require(ok, 'filetype:%s' % name, 'FileType::%s is not `mode & S_IFMT == %s` (%#o): %s' % (name, bit, hv[bit], [str(e)[:100] for e in es]), f.where())
+    for name, bit in sorted(PERMISSION_BITS.items()):
+        f = facts.fn_opt('fs::Permissions::%s' % name)
+        if not r.require(f is not None, 'permission:%s' % name, 'Permissions::%s not found' % name):
+            continue
+        eb = ExprBuilder(f, multi='phi')
+        es = [eb.rvalue(s_['rv']) for loc, s_ in f.assigns() if s_['lhs']['l'] == 0 and not s_['lhs']['p']]
+        ok = False
+        for e in es:
+            if e[0] == 'bin' and e[1] == 'Ne' and e[2][0] == 'bin' and e[2][1] == 'BitAnd':
+                ok = _consts_in(e[2]) == [hv[bit]] and _consts_in(e[3]) == [0]
+        n += 1
+        r.inst('Permissions::%s tests %s' % (name, bit), f.where())
+        r.require(ok, 'permission:%s' % name, 'Permissions::%s is not `mode & %s != 0` (%#o): %s' % (name, bit, hv[bit], [str(e)[:100] for e in es]), f.where())
+    r.floor(16)
+
+
 def check(ctx):
     ctx.run('C13.R1', 'end-to-end argument placement (public parameter -> SQE byte position) vs the io_uring ABI table', r1_flow_vs_abi)
     ctx.run('C13.R2', 'opcode / flag constants vs <linux/io_uring.h>', r2_constants)
@@ -606,5 +658,6 @@ def check(ctx):
     ctx.run('C13.R6', 'OpenOptions builders set exactly the open(2) flags of their name', r6_open_options)
     ctx.run('C13.R7', 'socket option types carry the level/option numbers of their socket(7)/tcp(7) counterpart', r7_socket_options)
     ctx.run('C13.R9', 'returned metadata: accessor <-> statx field table; signed statx timestamps converted without losing the sign', r9_metadata)
+    ctx.run('C13.R9b', 'returned metadata: FileType / Permissions accessors vs the stat(2) mode bits of <linux/stat.h>', r9b_mode_bits)
     from . import c16
     ctx.run('C13.R8', 'addresses returned by accept/recv_from/local_addr/peer_addr are decoded field by field the way they are encoded (C16.R1: same fields, same byte order, constructor argument order)', c16.r1_field_agreement)
